@@ -5,8 +5,8 @@ usage: benigneval.py <dir> <name>
 
 <dir>/out holds patch.diff, demo_test.go, meta.json written by an independent sub-agent that was asked to
 change unspecified behaviour while keeping all 20 properties true. The patch is confirmed to apply, build
-and keep the library suite green in a scratch worktree, then applied to /repo, every quick check is run,
-and /repo is restored. Result: /verif/seeded/benign/<name>/{patch.diff,meta.json}.
+and keep the library suite green in a scratch worktree; every quick check is then run against that patched
+copy (VERIF_REPO), /repo itself is not touched. Result: /verif/seeded/benign/<name>/{patch.diff,meta.json}.
 """
 import json, os, shutil, subprocess, sys, time
 
@@ -22,9 +22,12 @@ def main():
     meta = json.load(open(os.path.join(out, 'meta.json')))
     rec = {'theme': meta.get('theme'), 'summary': meta.get('summary'), 'visible_difference': meta.get('visible_difference'),
            'why_properties_hold': meta.get('why_properties_hold'), 'files': meta.get('files'), 'ran': []}
-    wt = '/tmp/benigneval_wt'
+    # the patched copy lives in its own worktree; the checks are pointed at it with VERIF_REPO, so /repo is
+    # never touched and several evaluations can run side by side
+    wt = '/tmp/benigneval_wt_' + name
     run(['git', '-C', '/repo', 'worktree', 'remove', '--force', wt]); shutil.rmtree(wt, ignore_errors=True)
     rc, o = run(['git', '-C', '/repo', 'worktree', 'add', '--detach', wt, 'HEAD']); assert rc == 0, o
+    alarms = []
     try:
         rc, o = run(['git', 'apply', '--3way', '--whitespace=nowarn', os.path.join(out, 'patch.diff')], cwd=wt)
         if rc != 0:
@@ -34,25 +37,19 @@ def main():
         rec['suite_passes'] = rc == 0
         if rc != 0:
             print('SUITE FAILS WITH PATCH', o[-800:]); return 1
-    finally:
-        run(['git', '-C', '/repo', 'worktree', 'remove', '--force', wt]); shutil.rmtree(wt, ignore_errors=True)
-    rc, st = run(['git', '-C', '/repo', 'status', '--porcelain']); assert st.strip() == '', st
-    tmp = '/tmp/benigneval.diff'; open(tmp, 'w').write(diff)
-    rc, o = run(['git', '-C', '/repo', 'apply', '--whitespace=nowarn', tmp]); assert rc == 0, o
-    alarms = []
-    try:
+        env = dict(ENV, VERIF_REPO=wt)
         for i in range(1, 21):
             p = 'C%02d' % i
             t0 = time.time()
-            rc, o = run(['/verif/bin/vcheck', '-prop', p, '-tier', 'quick'], cwd='/verif')
+            pr = subprocess.run(['/verif/bin/vcheck', '-prop', p, '-tier', 'quick'], cwd='/verif', env=env, capture_output=True, text=True, timeout=3600)
+            rc, o = pr.returncode, pr.stdout + pr.stderr
             text = o[o.index('VIOLATION-TEXT'):][:900] if 'VIOLATION-TEXT' in o else ''
-            rec['ran'].append({'cmd': f'./bin/vcheck -prop {p} -tier quick', 'exit': rc, 'seconds': round(time.time() - t0, 1), 'excerpt': text})
+            rec['ran'].append({'cmd': f'VERIF_REPO=<patched copy> ./bin/vcheck -prop {p} -tier quick', 'exit': rc, 'seconds': round(time.time() - t0, 1), 'excerpt': text or (o[-400:] if rc != 0 else '')})
             if rc != 0:
                 alarms.append(p)
-                print(p, 'exit', rc, text[:600])
+                print(name, p, 'exit', rc, (text or o[-600:])[:700], flush=True)
     finally:
-        run(['git', '-C', '/repo', 'checkout', '--', '.'])
-        rc, st = run(['git', '-C', '/repo', 'status', '--porcelain']); assert st.strip() == '', st
+        run(['git', '-C', '/repo', 'worktree', 'remove', '--force', wt]); shutil.rmtree(wt, ignore_errors=True)
     rec['alarms'] = alarms
     dst = os.path.join('/verif/seeded/benign', name)
     os.makedirs(dst, exist_ok=True)
